@@ -358,6 +358,34 @@ theorem norm_of_final (l : Local) (h : l.isFinal = true) : norm l = l := by
   intro st r hp
   simp [Local.isFinal, hp] at h
 
+
+/-! ### macro steps are sequences of atomic steps -/
+
+/-- k atomic steps of one request -/
+def stepN (cfg : Cfg) : Nat → Shared × Local → Shared × Local
+  | 0, st => st
+  | k + 1, st => stepN cfg k (step cfg st.1 st.2)
+
+theorem runUntilPark_steps (cfg : Cfg) (fuel : Nat) :
+    ∀ (sh : Shared) (l : Local), ∃ k, runUntilPark cfg fuel sh l = stepN cfg k (sh, l) := by
+  induction fuel with
+  | zero => intro sh l; exact ⟨0, rfl⟩
+  | succ f ih =>
+    intro sh l
+    unfold runUntilPark
+    split
+    · exact ⟨0, rfl⟩
+    · obtain ⟨k, hk⟩ := ih (step cfg sh l).1 (step cfg sh l).2
+      exact ⟨k + 1, by simp only [stepN]; exact hk⟩
+
+theorem advance_steps (cfg : Cfg) (fuel : Nat) (sh : Shared) (l : Local) :
+    ∃ k, advance cfg fuel sh l = stepN cfg k (sh, l) := by
+  unfold advance
+  split
+  · obtain ⟨k, hk⟩ := runUntilPark_steps cfg fuel (step cfg sh l).1 (step cfg sh l).2
+    exact ⟨k + 1, by simp only [stepN]; exact hk⟩
+  · exact runUntilPark_steps cfg fuel sh l
+
 theorem sliceCells_read (s : Slice) (a : Access) (h : a ∈ sliceCells s) : a.write = false := by
   simp only [sliceCells, List.mem_map] at h
   obtain ⟨i, _, rfl⟩ := h
